@@ -25,6 +25,11 @@ type Mismatch struct {
 	Model   string `json:"model"`
 	Oracle  string `json:"oracle,omitempty"`
 	Note    string `json:"note,omitempty"`
+	// FailingInput, when set, is a concrete input on which the property itself fails on the
+	// implementation (found by the stream's own search); Key is a stable identifier of the
+	// failing input for known-findings.txt.
+	FailingInput string `json:"failing_input,omitempty"`
+	Key          string `json:"key,omitempty"`
 }
 
 type Summary struct {
@@ -42,6 +47,8 @@ type Summary struct {
 	CorpusCases  int            `json:"corpus_cases"`
 	WallS        float64        `json:"wall_s"`
 	Error        string         `json:"error,omitempty"`
+	// Extra holds stream specific measurements that go into the evidence file verbatim.
+	Extra map[string]interface{} `json:"extra,omitempty"`
 }
 
 var (
@@ -91,7 +98,7 @@ func main() {
 	start := time.Now()
 	sum := &Summary{Stream: *stream, Profile: *profile, Seed: *seed, Distribution: map[string]int{}, Samples: []string{}, Mismatches: []Mismatch{}}
 	r := &runner{sum: sum, seen: map[[32]byte]bool{}}
-	needModel := *stream != "tables" && *stream != "purity"
+	needModel := !noModelStreams[*stream]
 	if needModel {
 		m, err := vd.StartModel(*modelPath)
 		if err != nil {
